@@ -43,11 +43,15 @@ type vf37Ev struct {
 var (
 	vf37Log     []vf37Ev
 	vf37CurUnit int
+	// vf37CancelFn cancels the context the current dispatch runs under, when
+	// the installed hook derived a cancellable one (turn code "ec" calls it).
+	vf37CancelFn func()
 )
 
 func vf37Reset() {
 	vf37Log = nil
 	vf37CurUnit = 0
+	vf37CancelFn = nil
 }
 
 func vf37User(format string, args ...any) {
@@ -140,6 +144,15 @@ func (s *Vf37State) turn(what string, input arrow.RecordBatch, out *OutputCollec
 		return emit(1)
 	case "n":
 		return nil
+	case "ec":
+		// emit, then cancel the dispatch context the hook derived (if any)
+		if err := emit(1); err != nil {
+			return err
+		}
+		if vf37CancelFn != nil {
+			vf37CancelFn()
+		}
+		return nil
 	}
 	panic("vf37: unknown turn code " + code)
 }
@@ -223,6 +236,7 @@ var vf37Scripts = map[int64][]string{
 	12: {"ex"},
 	13: {"le", "f"},
 	14: {"E", "f"},
+	15: {"e", "ec", "e", "f"},
 }
 
 func vf37Kinds() []vf37Kind {
@@ -887,4 +901,161 @@ func vf37ChooseHistory(x vf37Chooser, kinds []vf37Kind, maxDepth int) []*vf37Kin
 		hist = append(hist, &kinds[c-1])
 	}
 	return hist
+}
+
+// ---------------------------------------------------------------------------
+// In-memory external storage + HTTP client
+
+type vf41Store struct {
+	objs       map[string][]byte
+	enc        map[string]string
+	n          int
+	failUpload bool
+	uploads    int
+	fetches    int
+}
+
+func vf41NewStore() *vf41Store {
+	return &vf41Store{objs: map[string][]byte{}, enc: map[string]string{}}
+}
+
+func (s *vf41Store) Upload(data []byte, schema *arrow.Schema, contentEncoding string) (string, error) {
+	s.uploads++
+	if s.failUpload {
+		return "", fmt.Errorf("verif: storage unavailable")
+	}
+	s.n++
+	u := fmt.Sprintf("https://mem.test/up/%d", s.n)
+	s.objs[u] = append([]byte(nil), data...)
+	s.enc[u] = contentEncoding
+	return u, nil
+}
+
+func (s *vf41Store) RoundTrip(r *http.Request) (*http.Response, error) {
+	s.fetches++
+	u := r.URL.String()
+	body, ok := s.objs[u]
+	resp := &http.Response{StatusCode: 200, Status: "200 OK", Proto: "HTTP/1.1", ProtoMajor: 1, ProtoMinor: 1,
+		Header: http.Header{}, Request: r}
+	if !ok {
+		resp.StatusCode, resp.Status = 404, "404 Not Found"
+		body = []byte("no such object")
+	}
+	if e := s.enc[u]; e != "" {
+		resp.Header.Set("Content-Encoding", e)
+	}
+	resp.Body = io.NopCloser(bytes.NewReader(body))
+	resp.ContentLength = int64(len(body))
+	return resp, nil
+}
+
+const (
+	vf41URLx      = "https://mem.test/obj/x"       // one int64 x batch (valid request / input)
+	vf41URL2      = "https://mem.test/obj/two"     // two data batches in one stream
+	vf41URLlog    = "https://mem.test/obj/log"     // log batch, then data batch
+	vf41URLjunk   = "https://mem.test/obj/junk"    // end-of-stream marker without a schema
+	vf41URLtrunc  = "https://mem.test/obj/trunc"   // valid schema, truncated record batch
+	vf41URLloop   = "https://mem.test/obj/loop"    // data batch, then a pointer batch
+	vf41URLabsent = "https://mem.test/obj/missing" // 404
+)
+
+func (s *vf41Store) preload() {
+	b1, b2 := vfI64Batch("x", 5), vfI64Batch("x", 6)
+	defer b1.Release()
+	defer b2.Release()
+	s.objs[vf41URLx] = vfStreamBytes(vfXSchema, b1)
+	s.objs[vf41URL2] = vfStreamBytes(vfXSchema, b1, b2)
+	lg := vf37ZeroRows(vfXSchema, MetaLogLevel, "INFO", MetaLogMessage, "hello")
+	defer lg.Release()
+	s.objs[vf41URLlog] = vfStreamBytes(vfXSchema, lg, b1)
+	// Not "random text": the IPC reader would take its first four bytes as a
+	// ~1.9 GB message length and allocate that much. An end-of-stream marker
+	// with no schema is rejected immediately.
+	s.objs[vf41URLjunk] = []byte{0xff, 0xff, 0xff, 0xff, 0, 0, 0, 0}
+	full := s.objs[vf41URLx]
+	s.objs[vf41URLtrunc] = append([]byte(nil), full[:len(full)-40]...)
+	ptr := vf37ZeroRows(vfXSchema, MetaLocation, vf41URLx)
+	defer ptr.Release()
+	s.objs[vf41URLloop] = vfStreamBytes(vfXSchema, b1, ptr)
+}
+
+// external kinds: Via names how the request / the inputs travel.
+func vf41ExtKinds() []vf37Kind {
+	return []vf37Kind{
+		{Name: "u-ok", Class: "ok", Method: "u_ok", X: 5, Dispatched: true},
+		{Name: "u-big", Class: "ext-upload", Method: "u_big", X: 9000, Dispatched: true},
+		{Name: "prod-big", Class: "ext-upload", Method: "prod", Stream: 1, X: 14, In: []string{"t", "t"}, Dispatched: true},
+		{Name: "exch-big", Class: "ext-upload", Method: "exch", Stream: 2, X: 9, In: []string{"i"}, Dispatched: true},
+		{Name: "exch-err", Class: "handler-error", Method: "exch", Stream: 2, X: 2, In: []string{"i", "i"}, Dispatched: true},
+		{Name: "req-ptr-unary", Class: "ext-request", Method: "u_ok", X: 5, Via: vf41URLx, Dispatched: true},
+		{Name: "req-ptr-init", Class: "ext-request", Method: "exch", Stream: 2, X: 6, In: []string{"i"}, Via: vf41URLx, Dispatched: true},
+		{Name: "req-ptr-404", Class: "ext-request-404", Method: "u_ok", X: 5, Via: vf41URLabsent},
+		{Name: "req-ptr-junk", Class: "ext-request-junk", Method: "u_ok", X: 5, Via: vf41URLjunk},
+		{Name: "req-ptr-trunc", Class: "ext-request-trunc", Method: "u_ok", X: 5, Via: vf41URLtrunc},
+		{Name: "req-ptr-two", Class: "ext-request-2batch", Method: "u_ok", X: 5, Via: vf41URL2, Dispatched: true},
+		{Name: "req-ptr-log", Class: "ext-request-log+data", Method: "u_ok", X: 5, Via: vf41URLlog, Dispatched: true},
+		{Name: "req-ptr-loop", Class: "ext-request-loop", Method: "u_ok", X: 5, Via: vf41URLloop},
+		{Name: "in-ptr", Class: "ext-input", Method: "exch", Stream: 2, X: 6, In: []string{"P" + vf41URLx, "i"}, Dispatched: true},
+		{Name: "in-ptr-404", Class: "ext-input-404", Method: "exch", Stream: 2, X: 6, In: []string{"i", "P" + vf41URLabsent}, Dispatched: true},
+		{Name: "in-ptr-two", Class: "ext-input-2batch", Method: "exch", Stream: 2, X: 6, In: []string{"P" + vf41URL2}, Dispatched: true},
+		{Name: "in-ptr-junk", Class: "ext-input-junk", Method: "exch", Stream: 2, X: 6, In: []string{"P" + vf41URLjunk}, Dispatched: true},
+		{Name: "in-ptr-trunc", Class: "ext-input-trunc", Method: "exch", Stream: 2, X: 6, In: []string{"i", "P" + vf41URLtrunc}, Dispatched: true},
+	}
+}
+
+func vf41PtrBatch(url string, kv ...string) arrow.RecordBatch {
+	return vf37ZeroRows(vfXSchema, append([]string{MetaLocation, url}, kv...)...)
+}
+
+// vf41ExtEnv wires the override hooks for the external kinds.
+func vf41ExtEnv(env *vf37Env) {
+	env.Segment = func(k *vf37Kind, call int) []byte {
+		// The pipe transport has no external *request* resolution; pointer
+		// requests are an HTTP feature. Only exchange inputs travel as pointers.
+		if k.Stream != 2 {
+			return nil
+		}
+		has := false
+		for _, c := range k.In {
+			if strings.HasPrefix(c, "P") {
+				has = true
+			}
+		}
+		if !has {
+			return nil
+		}
+		p := vf37Params(k)
+		seg := vfRequest(k.Method, p, vf37ReqMeta(k, call, nil)...)
+		p.Release()
+		var batches []arrow.RecordBatch
+		for i, c := range k.In {
+			if strings.HasPrefix(c, "P") {
+				batches = append(batches, vf41PtrBatch(c[1:]))
+			} else {
+				batches = append(batches, vf37InputBatch(c, i))
+			}
+		}
+		seg = append(seg, vfStreamBytes(vfXSchema, batches...)...)
+		for _, b := range batches {
+			b.Release()
+		}
+		return seg
+	}
+	env.HTTPBody = func(k *vf37Kind, call int, what string, i int, cursor, callTok string) []byte {
+		if what == "first" {
+			if k.Via == "" {
+				return nil
+			}
+			meta := append([]string{MetaMethod, k.Method, MetaRequestVersion, ProtocolVersion}, vf37ReqMeta(k, call, nil)...)
+			pb := vf41PtrBatch(k.Via, meta...)
+			defer pb.Release()
+			return vfStreamBytes(vfXSchema, pb)
+		}
+		if strings.HasPrefix(what, "P") {
+			pb := vf41PtrBatch(what[1:], MetaStreamState, cursor, MetaCallState, callTok)
+			defer pb.Release()
+			return vfStreamBytes(vfXSchema, pb)
+		}
+		return nil
+	}
 }
